@@ -200,4 +200,14 @@ theorem lockShare_mono (remain L e l1 l2 : Nat) (h : l1 ≤ l2) : lockShare rema
   unfold lockShare
   exact Nat.div_le_div_right (Nat.mul_le_mul_left _ h)
 
+theorem sum_filter_le {α : Type} (f : α → Nat) (p : α → Bool) (l : List α) : ((l.filter p).map f).sum ≤ (l.map f).sum := by
+  induction l with
+  | nil => simp
+  | cons x xs ih =>
+    simp only [List.filter_cons]
+    split
+    · simp only [List.map_cons, List.sum_cons]; omega
+    · simp only [List.map_cons, List.sum_cons]; omega
+
+
 end DymVerif.Incent
